@@ -254,25 +254,18 @@ func (r *result) idleBounds(f *facts, e *endpoint, T, since, period time.Duratio
 		}
 	}
 	if T > limit {
-		// Known root cause: shortHeaderPacket.IsAckEliciting ignores STREAM frames, so a PTO probe that carries only
-		// STREAM frames does not start the idle period; a later probe (one with a control frame) does.
+		// Root cause found with this check (repaired in /repo f1135e1): shortHeaderPacket.IsAckEliciting ignored STREAM
+		// frames, so a PTO probe carrying only STREAM frames did not start the idle period; a later probe (one with a
+		// control frame) did. The pattern keeps its own signature.
 		for _, t := range later {
 			if T >= t+period && T <= t+span+timeoutSlack {
-				sig := "C17/idle/stream-only-probe-not-counted"
-				if tolerate(r.u, sig) {
-					return nil
-				}
-				return r.bad(sig, "%s gave up at %v; last packet received at %v, first ack-eliciting packet sent after it at %v, period %v: the deadline was %v, but the idle period was restarted by the ack-eliciting packet sent at %v", e.name, T, lastRecv, start, period, limit, t)
+				return r.bad("C17/idle/stream-only-probe-not-counted", "%s gave up at %v; last packet received at %v, first ack-eliciting packet sent after it at %v, period %v: the deadline was %v, but the idle period was restarted by the ack-eliciting packet sent at %v", e.name, T, lastRecv, start, period, limit, t)
 			}
 		}
 		return r.bad("C17/idle/late", "%s gave up at %v; last packet received at %v, first ack-eliciting packet sent after it at %v, period %v: the deadline was %v at the latest", e.name, T, lastRecv, start, period, limit)
 	}
 	return nil
 }
-
-// tolerate reports whether a genuine defect of the tree under test is an open entry of known_findings.json (it is
-// then counted as a known-finding hit and the remaining checks of the case go on). Anything else is a violation.
-func tolerate(u *vf.Unit, sig string) bool { return u.KnownHit(sig) }
 
 // explainEnd decides whether the way and the time endpoint e's connection ended is justified by what the script
 // did and what the network delivered.
@@ -533,10 +526,7 @@ func judge(r *result, u *vf.Unit) *vf.Verdict {
 					return r.bad("C17/later-call/blocks", "%s: %s on the ended connection took %v", e.name, cl.Name, cl.End-cl.Start)
 				}
 				if cl.Name == "later:SendDatagram" && cl.Err == nil {
-					// genuine finding: datagramQueue.Add never looks at the closed flag while the queue has room
-					if tolerate(u, "C17/later-call/send-datagram-succeeds") {
-						continue
-					}
+					// found with this check (repaired in /repo 8510b45): datagramQueue.Add never looked at the closed flag
 					return r.bad("C17/later-call/send-datagram-succeeds", "%s: SendDatagram on a connection that ended at %v with %v returned nil", e.name, e.endAt, cause)
 				}
 				if !sameCause(cl.Err, cause) {
